@@ -130,33 +130,41 @@ fn expand(real: bool, lead: f64, roots: &[C]) -> Vec<C> {
     }
 }
 
-fn separated(roots: &[C], z: C) -> bool {
-    roots.iter().all(|w| (w - z).norm() >= MIN_SEP)
+fn separated_by(roots: &[C], z: C, min_sep: f64) -> bool {
+    roots.iter().all(|w| (w - z).norm() >= min_sep)
 }
 
 /// roots pairwise >= MIN_SEP apart inside the disc of radius DISC; real: conjugate closed
 pub fn gen_poly(rng: &mut Rng, real: bool, degree: usize) -> Poly {
+    let lead = rng.sign() * rng.log10(-1.0, 1.0);
+    gen_poly_with(rng, real, degree, MIN_SEP, DISC, lead)
+}
+
+/// the same with a chosen minimal separation, disc radius and leading coefficient (clustered
+/// roots with a small leading coefficient make |p'| at and near the roots small)
+pub fn gen_poly_with(rng: &mut Rng, real: bool, degree: usize, min_sep: f64, disc: f64, lead: f64) -> Poly {
+    let separated = |roots: &[C], z: C| separated_by(roots, z, min_sep);
     let mut roots: Vec<C> = vec![];
     let mut guard = 0;
     while roots.len() < degree && guard < 10_000 {
         guard += 1;
         if real {
             if degree - roots.len() >= 2 && rng.below(3) == 0 {
-                let rad = DISC * rng.f().sqrt();
+                let rad = disc * rng.f().sqrt();
                 let th = rng.r(0.0, std::f64::consts::PI);
                 let z = C::new(rad * th.cos(), rad * th.sin());
-                if z.im >= MIN_SEP / 2.0 && separated(&roots, z) && separated(&roots, z.conj()) {
+                if z.im >= min_sep / 2.0 && separated(&roots, z) && separated(&roots, z.conj()) {
                     roots.push(z);
                     roots.push(z.conj());
                 }
             } else {
-                let z = C::new(rng.r(-DISC, DISC), 0.0);
+                let z = C::new(rng.r(-disc, disc), 0.0);
                 if separated(&roots, z) {
                     roots.push(z);
                 }
             }
         } else {
-            let rad = DISC * rng.f().sqrt();
+            let rad = disc * rng.f().sqrt();
             let th = rng.r(0.0, std::f64::consts::TAU);
             let z = C::new(rad * th.cos(), rad * th.sin());
             if separated(&roots, z) {
@@ -164,7 +172,6 @@ pub fn gen_poly(rng: &mut Rng, real: bool, degree: usize) -> Poly {
             }
         }
     }
-    let lead = rng.sign() * rng.log10(-1.0, 1.0);
     let coef = expand(real, lead, &roots);
     Poly { real, lead, roots, coef }
 }
@@ -204,8 +211,18 @@ fn basin_radius(p: &Poly, k: usize) -> f64 {
 
 fn newton_case(rng: &mut Rng, rep: &mut Report) {
     let real = rng.bool();
-    let degree = 1 + rng.below(8);
-    let mut p = gen_poly(rng, real, degree);
+    // a fifth of the cases: roots clustered 0.1-0.3 apart in a small disc, small leading coefficient,
+    // loose tolerance - the derivative at and near the roots is then of the size of the tolerance,
+    // which has no bearing on where the iteration may stop
+    let clustered = rng.chance(0.2);
+    let degree = if clustered { 4 + rng.below(5) } else { 1 + rng.below(8) };
+    let mut p = if clustered {
+        let lead = rng.sign() * rng.log10(-2.0, 0.0);
+        let sep = rng.r(0.1, 0.3);
+        gen_poly_with(rng, real, degree, sep, sep * (degree as f64).sqrt() * 1.2, lead)
+    } else {
+        gen_poly(rng, real, degree)
+    };
     if p.roots.len() != degree {
         rep.count("newton_polynomial/generator_gave_up", 1);
         return;
@@ -218,7 +235,13 @@ fn newton_case(rng: &mut Rng, rep: &mut Report) {
     }
     let k = *rng.pick(&cands);
     let rho = basin_radius(&p, k);
-    let tol = rng.log10(-10.0, -3.0);
+    let tol = if clustered { rng.log10(-5.0, -2.0).min(rho / 8.0) } else { rng.log10(-10.0, -3.0) };
+    if clustered {
+        rep.count("newton_polynomial/clustered_cases", 1);
+        if p.dp_at_root(k) <= tol {
+            rep.count("newton_polynomial/clustered_cases_with_derivative_at_root_below_tol", 1);
+        }
+    }
     let dir = if real { C::new(rng.sign(), 0.0) } else { C::from_polar(1.0, rng.r(0.0, std::f64::consts::TAU)) };
     let kind = rng.below(10);
     let mut expect_err = false;
@@ -434,6 +457,7 @@ pub fn stages(ctx: &Ctx) -> Vec<Stage> {
 pub fn thresholds(ctx: &Ctx, rep: &Report) -> Vec<Threshold> {
     let q = |a: f64, b: f64| ctx.tier.pick(a, b);
     let mut t = vec![];
+    t.push(Threshold { what: "newton_polynomial: clustered-root cases whose derivative at the target root is below the tolerance".into(), required: ctx.tier.pick(600.0, 12_000.0), observed: rep.counter("newton_polynomial/clustered_cases_with_derivative_at_root_below_tol") as f64 });
     for f in ["real", "complex"] {
         t.push(Threshold { what: format!("newton_polynomial {}: regular starts", f), required: q(4_000.0, 100_000.0), observed: rep.counter(&format!("newton_polynomial/{}/regular", f)) as f64 });
         t.push(Threshold { what: format!("newton_polynomial {}: starts at exactly 0 beside the root", f), required: q(500.0, 12_000.0), observed: rep.counter(&format!("newton_polynomial/{}/zero-start", f)) as f64 });
